@@ -31,6 +31,7 @@ func init() {
 
 func execC08acl(x *hysim.Run) {
 	s := newEngSetup(x)
+	s.checkJudgedByCaller = true
 	m := buildModel(x.Script, s.names)
 	eng := s.build(m)
 	if eng == nil {
@@ -110,9 +111,6 @@ func execC08acl(x *hysim.Run) {
 	if st.repeats > 0 {
 		x.Probe("address-asked-again")
 		x.NonTrivial()
-	}
-	if st.distinct > 512 {
-		x.Probe("more-distinct-keys-than-cache") // every address makes a udp and often a tcp key
 	}
 	x.Drain(0)
 	synctest.Wait()
